@@ -20,6 +20,10 @@ open Parsley Parsley.Obj Parsley.Spelling Parsley.DocSpec Driver
                                     number (second pass only), 6 plain object listed under an unused number, 7 backward-
                                     /Length stream listed under an unused number; all must be rejected; 8 = uncorrupted
                                     control, must load exactly
+      w0   <hex> <seed> <variant>   purpose-built: a cross-reference stream WITHOUT a type field (/W [0 n m], every row is
+                                    type 1 by default, /Index leaving out object 0): variant even = the stream is the
+                                    file's cross-reference section, odd = hybrid file whose /XRefStm stream lists some
+                                    of the file-level objects (in-use rows) that the table does not mention
       hist <hex> <seed> <variant>   a history (C04): newest revision wins / bad /Prev chain rejected
       exp  <hex> <expected output>  hand-built corpus case with the expected output spelled out
       mut  <hex>                    a corrupted file: correspondence and no panic only
@@ -416,6 +420,78 @@ def judgeCommon (case impl : String) : Option String :=
       else "bad malformed-output")
   | _ => none
 
+/-! ### cross-reference streams without a type field (/W [0 n m]) -/
+
+/-- the objects of a `w0` document: 2-5 user objects (values and streams, /Length direct or referenced), no members -/
+def w0Objs (seed variant : Nat) : List DObj × GenSt × Bytes × Bool :=
+  let r := Rng.mk' (seed * 3571 + variant * 17 + 3)
+  let (garbage, r) := rndGarbage r
+  let (bin, r) := r.nat 2
+  let (n, r) := r.nat 4
+  let (objs, _, g) := rndNewObjs ⟨r, 1, []⟩ (n + 2) 0 false
+  let (objs, r) := shuffleL objs g.r
+  (objs, { g with r }, garbage, bin == 1)
+
+/-- variant even: one revision whose cross-reference section is a stream with only type-1 rows (object 0 is not
+    listed), `lay.w0 = 0`: the encoder then writes /W [0 n m] -/
+def genW0 (seed variant : Nat) : Scene :=
+  let (objs, g, garbage, bin) := w0Objs seed variant
+  let (lay, _) := rndLay g.r 1 g.next 65535
+  let rk := g.known[0]?.getD default
+  ⟨garbage, bin, [({ objs, members := [], frees := [], zero := false, root := (rk.num, rk.gen), lay := { lay with w0 := 0 } }, .auto)],
+   some [0]⟩
+
+/-- variant odd: a hybrid file written here (Spec/Doc's hybrid layout puts only object-stream members into the
+    /XRefStm stream): the table lists object 0, the stream object and every second user object; the OTHER user objects
+    are listed only in the /XRefStm stream, as in-use rows of a stream with /W [0 n m].  Same pieces as
+    `DocSpec.renderRev`: `renderObjs`, `renderXrefStream`, `tableSubs`, `spellRaw`, `tailBytes`. -/
+def renderHybridW0 (seed variant : Nat) : Bytes × Said :=
+  let (objs, g, garbage, bin) := w0Objs seed variant
+  let (lay, _) := rndLay g.r 2 g.next 65535
+  let lay := { lay with w0 := 0, omitIndex := false }
+  let rk := g.known[0]?.getD default
+  let root : DocSpec.ObjId := (rk.num, rk.gen)
+  let h := header bin
+  let (body, us, vals) := renderObjs objs h.length
+  let p1 := h.length + body.length
+  let uses : List XE := us.map fun u => ⟨u.1, 1, u.2.2, u.2.1⟩
+  -- the user objects (not the length holders, which must be loadable in the first pass anyway) at even positions
+  let userNums := g.known.map (·.num)
+  let moved := (userNums.zipIdx.filter fun (_, i) => i % 2 == 0).map (·.1)
+  let inStream := uses.filter fun e => moved.contains e.num
+  let inTable := uses.filter fun e => !moved.contains e.num
+  let maxNum := maxOf (uses.map (·.num) ++ [lay.xnum])
+  let (xb, xv) := renderXrefStream lay p1 (sortXE inStream) (maxNum + 1) none none
+  let p2 := p1 + xb.length
+  let es := sortXE (inTable ++ [⟨0, 0, 0, 65535⟩, ⟨lay.xnum, 1, p1, 0⟩])
+  let table := XrefSpec.encTable (tableSubs lay es)
+  let tr : List (Bytes × Bytes) := rotate
+    [(bs "Size", natDigits (maxNum + 1)), (bs "Root", refBytes root), (bs "XRefStm", natDigits p1)] lay.dictOrder
+  let (w, c) := wsOpt lay.ch
+  let (d, c) := spellRaw tr c
+  (garbage ++ h ++ body ++ xb ++ table ++ bs "trailer" ++ w ++ bs "<<" ++ d ++ [10] ++ tailBytes p2 c,
+   ⟨vals ++ [((lay.xnum, 0), xv)], [], root⟩)
+
+def w0Bytes (seed variant : Nat) : Bytes × String :=
+  if variant % 2 == 0 then
+    let sc := genW0 seed variant
+    ((render sc).1, expected sc)
+  else
+    let (b, said) := renderHybridW0 seed variant
+    (b, match resolve [said] with
+        | (defs, some root) => s!"ok {root.1} {root.2}" ++ showDefs defs
+        | (_, none) => "rejected")
+
+def judgeW0 (seed variant : Nat) (hex impl : String) : String :=
+  let (bytes, want) := w0Bytes seed variant
+  if hexOfBytes bytes != hex then "bad generator-mismatch the case does not re-derive from its seed"
+  else
+    let got := impl.trimAscii.toString
+    if got == want then "ok"
+    else if got.startsWith "panic" || got.startsWith "crash" || got.startsWith "hang" then s!"bad panic-or-crash {got.take 80}"
+    else if got == "rejected" then "bad wellformed-rejected rejected"
+    else s!"bad wrong-load want={(want.take 300)}"
+
 def judge (case impl : String) : String :=
   match judgeCommon case impl with
   | some v => v
@@ -424,6 +500,7 @@ def judge (case impl : String) : String :=
     | ["doc", hex, seed, variant] => judgeScene (genDoc seed.toNat! variant.toNat!) hex impl
     | ["mism", hex, seed, variant] => judgeScene (genMism seed.toNat! variant.toNat!) hex impl
     | ["sys", hex, seed, variant, mode] => judgeScene (genSys seed.toNat! variant.toNat! mode.toNat!) hex impl
+    | ["w0", hex, seed, variant] => judgeW0 seed.toNat! variant.toNat! hex impl
     | _ => "skip"
 
 /-! ### corruption of a rendered file -/
@@ -470,6 +547,10 @@ def gen (seed n : Nat) (_tier : String) (emit : String → IO Unit) : IO Unit :=
       let sy := genSys s (k / 3) mode
       let (sb, _, _, _) := render sy
       emit s!"sys {hexOfBytes sb} {s} {k / 3} {mode}"
+    -- cross-reference streams without a type field, plain and behind a hybrid table
+    if k % 5 == 2 then
+      let (wb, _) := w0Bytes s (k / 5)
+      emit s!"w0 {hexOfBytes wb} {s} {k / 5}"
 
 /-- non-trivial: a document with at least 3 defined objects / a mismatch case / a corrupted file of ≥ 200 bytes -/
 def nontrivial (line : String) : Bool :=
@@ -478,6 +559,7 @@ def nontrivial (line : String) : Bool :=
   | "hist" :: hex :: _ => hex.length ≥ 600
   | "mism" :: _ => true
   | "sys" :: _ => true
+  | "w0" :: _ => true
   | "exp" :: _ => true
   | "mut" :: hex :: _ => hex.length ≥ 400
   | _ => false
